@@ -70,6 +70,11 @@ pub struct Scenario {
     /// does for blocks before its assume-valid target during initial sync
     #[serde(default)]
     pub assume_valid_first: usize,
+    /// every delivery first passes the header stage exactly as the miner RPC `submit_block` runs it
+    /// (HeaderVerifier on the current snapshot, parent must be stored); a refused block is not handed
+    /// to the chain service
+    #[serde(default)]
+    pub header_stage: bool,
 }
 
 pub fn gen_cfg(r: &mut Rng) -> Cfg {
@@ -111,12 +116,13 @@ pub fn gen_recipe(r: &mut Rng, uniq: u64, rich: bool) -> Recipe {
         seed: (uniq << 20) | r.below(1 << 20),
         mutation: None,
         plant: Vec::new(),
+        ts_mode: None,
     }
 }
 
 /// a block without random content, carrying explicit gadget directives
 pub fn plain_recipe(seed: u64, plant: &[String]) -> Recipe {
-    Recipe { ts_delta: 2_000 + seed % 3_000, miner: (seed % 4) as u8, new_txs: 0, propose: 0, commit: 0, uncles: 0, ext_extra: 0, seed, mutation: None, plant: plant.to_vec() }
+    Recipe { ts_delta: 2_000 + seed % 3_000, miner: (seed % 4) as u8, seed, plant: plant.to_vec(), ..Default::default() }
 }
 
 /// (number, on a valid chain) for genesis + every tree block
@@ -138,10 +144,25 @@ pub const MUTATIONS: &[&str] = &[
     "uncle_unknown_parent", "commit_immature_since",
 ];
 
+/// more single-rule mutants, used by C03 only (the other properties keep their seed -> scenario mapping)
+pub const MUTATIONS_C03: &[&str] = &[
+    "tx_root", "proposals_hash", "extra_hash", "witness_root_only",
+    "two_cellbases", "cellbase_not_first", "cellbase_two_outputs", "cellbase_output_data", "cellbase_type_script",
+    "cellbase_input_since", "cellbase_witness_garbage", "cellbase_no_witness", "dup_tx",
+    "uncle_too_many", "uncle_other_epoch", "uncle_pow_invalid",
+];
+
+/// rules that only the header stage checks: generated only when deliveries pass through it
+pub const MUTATIONS_HEADER: &[&str] = &["hdr_ts_median", "hdr_number", "hdr_epoch_malformed", "hdr_pow"];
+
 /// Random block tree. Needs a World to know the shape only (parents by index): the tree is
 /// described by parent indexes, so generation does not need to build blocks — except to choose
 /// parents biased to "the current best tip", for which block numbers suffice.
 pub fn gen_tree(r: &mut Rng, n: usize, rich: bool, invalid: usize) -> Vec<TreeOp> {
+    gen_tree_with(r, n, rich, invalid, MUTATIONS)
+}
+
+pub fn gen_tree_with(r: &mut Rng, n: usize, rich: bool, invalid: usize, muts: &[&str]) -> Vec<TreeOp> {
     let mut parents: Vec<usize> = vec![]; // parents[i] = parent of block i+1
     let mut number: Vec<u64> = vec![0];
     let mut valid: Vec<bool> = vec![true];
@@ -172,7 +193,7 @@ pub fn gen_tree(r: &mut Rng, n: usize, rich: bool, invalid: usize) -> Vec<TreeOp
             let mut recipe = gen_recipe(r, i as u64 + 1, rich);
             let mut ok = valid[parent];
             if invalid_left > 0 && i > 1 && r.chance(1, (n as u64 / (invalid as u64 + 1)).max(2)) {
-                recipe.mutation = Some(r.pick(MUTATIONS).to_string());
+                recipe.mutation = Some(r.pick(muts).to_string());
                 invalid_left -= 1;
                 ok = false;
             }
@@ -215,7 +236,7 @@ pub fn gen_tree(r: &mut Rng, n: usize, rich: bool, invalid: usize) -> Vec<TreeOp
         let mut recipe = gen_recipe(r, i as u64 + 1, rich);
         let mut ok = valid[parent];
         if invalid_left > 0 && i > 1 && r.chance(1, (n as u64 / (invalid as u64 + 1)).max(2)) {
-            recipe.mutation = Some(r.pick(MUTATIONS).to_string());
+            recipe.mutation = Some(r.pick(muts).to_string());
             invalid_left -= 1;
             ok = false;
         }
@@ -350,6 +371,7 @@ pub fn generate_c07(seed: u64) -> Scenario {
         store_caches: None,
         verify_cache_cold: false,
         assume_valid_first: 0,
+        header_stage: false,
     }
 }
 
@@ -386,7 +408,49 @@ pub fn generate(seed: u64, prop: &str) -> Scenario {
         "C06" | "C19" => r.urange(0, 2),
         _ => if r.chance(1, 4) { 1 } else { 0 },
     };
-    let mut tree = gen_tree(&mut r, n, rich, invalid);
+    // C03: the whole pipeline "header check, then chain service" in three runs out of five; real
+    // proof of work (nonces mined by the model) in half of the runs
+    let mut header_stage = false;
+    let mut tree = if prop == "C03" {
+        let mut r3 = Rng::new(seed ^ 0xC03_4EAD);
+        header_stage = r3.chance(3, 5);
+        if r3.chance(1, 2) {
+            cfg.pow = r3.range(1, 2) as u8;
+            cfg.permanent_difficulty = false;
+        }
+        let mut muts: Vec<&str> = MUTATIONS.to_vec();
+        muts.extend_from_slice(MUTATIONS_C03);
+        muts.extend_from_slice(MUTATIONS_C03);
+        if header_stage {
+            for _ in 0..3 {
+                muts.extend_from_slice(MUTATIONS_HEADER);
+            }
+        }
+        let mut t = gen_tree_with(&mut r, n, rich, invalid, &muts);
+        for x in t.iter_mut() {
+            if x.recipe.mutation.is_none() && r3.chance(1, 10) {
+                x.recipe.ts_mode = Some("median_plus_one".into());
+            }
+            if matches!(x.recipe.mutation.as_deref(), Some("uncle_too_many" | "uncle_other_epoch" | "uncle_pow_invalid")) {
+                x.recipe.uncles = 0;
+            }
+        }
+        if header_stage {
+            // leaves stamped relative to the node's clock: exactly at the bound (valid), one ms beyond it
+            let (number, valid) = tree_numbers(&t);
+            for _ in 0..r3.urange(0, 3) {
+                let best = (0..number.len()).filter(|i| valid[*i]).max_by_key(|i| (number[*i], *i)).unwrap_or(0);
+                let parent = if r3.chance(2, 3) { best } else { r3.idx(number.len()) };
+                let mut rec = gen_recipe(&mut r3, 7_000 + t.len() as u64, false);
+                rec.uncles = 0;
+                rec.ts_mode = Some(if r3.chance(1, 2) { "future_bound" } else { "future_over" }.into());
+                t.push(TreeOp { parent, recipe: rec });
+            }
+        }
+        t
+    } else {
+        gen_tree(&mut r, n, rich, invalid)
+    };
     if prop == "C14" {
         // most of the broken blocks carry the same transaction content with a failing witness
         for t in tree.iter_mut() {
@@ -514,6 +578,47 @@ pub fn generate(seed: u64, prop: &str) -> Scenario {
             }
         }
         ops
+    } else if header_stage {
+        // the miner path refuses a block whose parent is not stored: mostly parents first
+        let mut ops = Vec::new();
+        let eager = r.range(30, 100);
+        let w = r.urange(1, 3);
+        let mut order: Vec<usize> = (1..=n).collect();
+        for i in 0..order.len() {
+            let j = (i + r.idx(w)).min(order.len() - 1);
+            order.swap(i, j);
+        }
+        for b in order {
+            ops.push(Op::Deliver { b });
+            if r.chance(1, 8) {
+                ops.push(Op::Deliver { b: r.urange(1, n) });
+            }
+            for _ in 0..r.urange(0, 3) {
+                if r.below(100) < eager {
+                    ops.push(if r.chance(1, 2) { Op::StepPreload } else { Op::StepVerify });
+                }
+            }
+            if r.chance(1, 6) {
+                ops.push(Op::Drain);
+            }
+        }
+        // blocks refused for want of a stored parent are offered again at the end
+        ops.push(Op::Drain);
+        for b in 1..=n {
+            ops.push(Op::Deliver { b });
+            if r.chance(1, 3) {
+                ops.push(Op::Drain);
+            }
+        }
+        if r.chance(1, 3) {
+            // the clock moves on: what was too far in the future is acceptable now
+            ops.push(Op::Clock { ms: r.range(1, 3) });
+            ops.push(Op::Drain);
+            for b in 1..=n {
+                ops.push(Op::Deliver { b });
+            }
+        }
+        ops
     } else {
         gen_ops(&mut r, n, true, prop == "C02")
     };
@@ -575,5 +680,6 @@ pub fn generate(seed: u64, prop: &str) -> Scenario {
         },
         verify_cache_cold: false,
         assume_valid_first: if prop == "C14" && r.chance(1, 3) { r.urange(3, 25) } else { 0 },
+        header_stage,
     }
 }
